@@ -77,6 +77,12 @@ def run_real(case):
     extra = ['S'] if case['extra'] else []
     rej = elfi.Rejection(m['d'], batch_size=case['b'], seed=case['seed'], pool=pool, output_names=extra,
                          max_parallel_batches=case['mpb'])
+    if case.get('before'):
+        # an EARLIER run of the same sampler object with another objective (a finite threshold, or a budget); the pool is
+        # emptied afterwards so that it records exactly the batches the run under test consumes
+        bf = case['before']
+        with_timeout(30.0, lambda: rej.sample(bf['n'], bar=False, **{bf['form']: bf['value']}))
+        pool.clear()
     kw = {}
     if case['form'] == 'threshold':
         kw['threshold'] = float('inf') if case['value'] == 'inf' else case['value']
@@ -199,9 +205,16 @@ def gen_case(rng, boundary=None):
     int_d = p_inf == 0 and rng.random() < .3
     positional = rng.random() < .3
     two_col = form in ('quantile', 'n_sim') and p_inf == 0 and not int_d and rng.random() < .35
+    before = None
+    if rng.random() < .25:
+        # the sampler object has been used before: with a generous finite threshold (leaves a threshold behind), or with a budget
+        before = rng.choice([dict(form='threshold', value=float(A), n=rng.randint(1, 4)), dict(form='threshold', value=float(A), n=rng.randint(1, 4)),
+                             dict(form='n_sim', value=rng.randint(4, 20), n=rng.randint(1, 4)), dict(form='quantile', value=0.5, n=rng.randint(1, 4))])
+    if two_col and before and before['form'] == 'threshold':
+        before = dict(form='n_sim', value=rng.randint(4, 20), n=before['n'])      # two-column discrepancies are ranked in budget modes only
     return dict(b=b, n=n, form=form, value=value, alphabet=A, p_inf=p_inf, int_discrepancy=int_d, positional=positional, two_col=two_col, seed=rng.randrange(2**32),
                 n_params=rng.randint(1, 3), summary_shape=rng.choice(['vec', 'mat']), extra=rng.random() < .6,
-                mpb=rng.choice([1, 1, 2, 3]))
+                mpb=rng.choice([1, 1, 2, 3]), before=before)
 
 
 BOUNDARY = [
@@ -211,6 +224,15 @@ BOUNDARY = [
     dict(b=1, n=1, form='quantile', value=1.0, alphabet=2, p_inf=0, seed=6, n_params=1, summary_shape='vec', extra=False, mpb=1),
     dict(b=5, n=2, form='threshold', value=0.0, alphabet=4, p_inf=0.1, seed=7, n_params=3, summary_shape='mat', extra=True, mpb=3),
     dict(b=3, n=3, form='quantile', value=0.1, alphabet=3, p_inf=0, seed=8, n_params=1, summary_shape='vec', extra=True, mpb=1),
+    # the second run of one sampler object: threshold run first, then each budget form (and the other way round)
+    dict(b=3, n=4, form='n_sim', value=25, alphabet=4, p_inf=0, seed=9, n_params=1, summary_shape='vec', extra=True, mpb=1,
+         before=dict(form='threshold', value=4.0, n=2)),
+    dict(b=4, n=3, form='quantile', value=0.1, alphabet=5, p_inf=0, seed=10, n_params=2, summary_shape='mat', extra=False, mpb=2,
+         before=dict(form='threshold', value=5.0, n=3)),
+    dict(b=6, n=1, form='default', value=None, alphabet=3, p_inf=0, seed=11, n_params=1, summary_shape='vec', extra=True, mpb=1,
+         before=dict(form='threshold', value=3.0, n=2)),
+    dict(b=3, n=3, form='threshold', value=1.0, alphabet=4, p_inf=0, seed=12, n_params=1, summary_shape='vec', extra=True, mpb=1,
+         before=dict(form='n_sim', value=12, n=2)),
 ]
 
 
@@ -220,8 +242,14 @@ def process(ctx, cases):
         if ctx.enough():
             break
         try:
+            import os as _os, time as _time
+            _t0 = _time.time()
             info = analyse(ctx, case)
+            if _os.environ.get('VERIF_DEBUG') and _time.time() - _t0 > 3:
+                print('SLOW', _time.time() - _t0, case)
         except Timeout:
+            if _os.environ.get('VERIF_DEBUG'):
+                print('TIMEOUT', case)
             ctx.case(case, True)
             ctx.fail_input(case, 'Rejection.sample did not return within 30 s (acceptance is possible for this '
                            'model: every discrepancy value of the alphabet has positive probability)', 'a Sample', 'no return')
